@@ -195,7 +195,8 @@ class SimpleEventSequence(EventSequence):
       events = self._events.__getitem__(key)
       return type(self)(pad_event=self._pad_event,
                         events=events,
-                        start_step=self.start_step + (key.start or 0),
+                        start_step=(self.start_step +
+                                    key.indices(len(self._events))[0]),
                         steps_per_bar=self.steps_per_bar,
                         steps_per_quarter=self.steps_per_quarter)
 
